@@ -322,12 +322,14 @@ Proof.
     { unfold adjust, to_list. rewrite zlen_map.
       assert (St : match sstep sl with None => 1%Z | Some x => x end = 1%Z) by (destruct HS as [-> | ->]; reflexivity).
       rewrite St. simpl.
-      f_equal. f_equal; [f_equal|].
-      - unfold a. destruct (sstart sl) as [t|]; auto. apply clamp_in. unfold a in GB. lia.
-      - unfold b. destruct (sstop sl) as [t|]; auto. apply clamp_in. unfold b, a in GB. lia. }
+      assert (Ea : match sstart sl with Some v => clamp_index 1 (zlen (col s)) v | None => 0%Z end = a).
+      { unfold a. destruct (sstart sl) as [t|] eqn:Es; auto. apply clamp_in. unfold a, b in GB. try rewrite Es in GB. lia. }
+      assert (Eb : match sstop sl with Some v => clamp_index 1 (zlen (col s)) v | None => zlen (col s) end = b).
+      { unfold b. destruct (sstop sl) as [t|] eqn:Es; auto. apply clamp_in. unfold a, b in GB. try rewrite Es in GB. lia. }
+      rewrite Ea, Eb. reflexivity. }
     rewrite ADJ. cbn [materialise]. unfold py_setslice. rewrite ADJ. simpl.
     rewrite Z.max_r by lia.
-    destruct (pl_setslice s _ vs) as [r s']; simpl in *. subst r. rewrite E. reflexivity.
+    rewrite R, E. reflexivity.
   - destruct (delitem_view s i W) as [W1 E]. split; auto.
     destruct (pl_delitem s i) as [r s'], (py_delitem (to_list s) i) as [l'|e']; simpl in *;
       destruct r; try contradiction; try (destruct E; subst); auto.
@@ -346,3 +348,151 @@ Proof.
   - discriminate.
   - discriminate.
 Qed.
+
+(* ------------------------------------------------------------------ dict proxy *)
+Lemma d_get_view : forall s k,
+  d_get k (to_dict s) = option_map (pval s) (find_key (pkey s) k (col s)).
+Proof.
+  intros s k. unfold to_dict. induction (col s) as [|o r IH]; simpl; auto.
+  rewrite Z.eqb_sym. destruct (Z.eqb (pkey s o) k); auto.
+Qed.
+
+Lemma find_key_In : forall f k c o, find_key f k c = Some o -> In o c /\ f o = k.
+Proof.
+  induction c as [|a r IH]; simpl; intros o H; [discriminate|].
+  destruct (Z.eqb_spec (f a) k).
+  - inversion H; subst; auto.
+  - destruct (IH _ H); auto.
+Qed.
+
+Lemma d_set_absent : forall k v d, d_get k d = None -> d_set k v d = d ++ [(k, v)].
+Proof.
+  induction d as [|[k' v'] r IH]; simpl; intros H; auto.
+  destruct (Z.eqb k k'); [discriminate|]. rewrite IH; auto.
+Qed.
+
+Lemma d_set_present : forall s k v o, NoDup (col s) -> find_key (pkey s) k (col s) = Some o ->
+  d_set k v (to_dict s) = to_dict (set_val s o v).
+Proof.
+  intros s k v o. unfold to_dict, set_val; simpl.
+  induction (col s) as [|a r IH]; simpl; intros ND H; [discriminate|].
+  inversion ND; subst. rewrite Z.eqb_sym.
+  destruct (Z.eqb_spec (pkey s a) k).
+  - inversion H; subst. rewrite updf_same. f_equal.
+    apply map_ext_in. intros x Hx. rewrite updf_other; auto. intro; subst; auto.
+  - rewrite (IH H3 H). f_equal. rewrite updf_other; auto.
+    intro; subst. destruct (find_key_In _ _ _ _ H). auto.
+Qed.
+
+Lemma pd_del_view : forall s k, to_dict (pd_del s k) = d_del k (to_dict s).
+Proof.
+  intros s k. unfold to_dict, pd_del, d_del; simpl.
+  induction (col s) as [|a r IH]; simpl; auto.
+  destruct (Z.eqb_spec (pkey s a) k); destruct (Z.eqb_spec k (pkey s a)); try congruence; simpl; auto.
+  f_equal; auto.
+Qed.
+
+Lemma pd_del_wf : forall s k, wf s -> wf (pd_del s k).
+Proof.
+  intros s k [ND B]. unfold pd_del. apply wf_with_col; [|intros o Ho; apply filter_In in Ho; apply Ho|split; auto].
+  apply NoDup_filter; auto.
+Qed.
+
+Lemma pd_setitem_view : forall s k v, wf s ->
+  wf (pd_setitem s k v) /\ to_dict (pd_setitem s k v) = d_set k v (to_dict s).
+Proof.
+  intros s k v W. unfold pd_setitem.
+  destruct (find_key (pkey s) k (col s)) as [o|] eqn:F.
+  - split; [exact W|]. symmetry. apply d_set_present; auto. apply W.
+  - destruct W as [ND B]. simpl. split.
+    + split; simpl.
+      * clear -ND B. induction (col s) as [|a r IH]; simpl; [constructor; auto; constructor|].
+        inversion ND; subst. constructor.
+        -- intro H. apply in_app_or in H. destruct H as [H|[H|[]]]; auto.
+           specialize (B a (or_introl eq_refl)). lia.
+        -- apply IH; auto. intros o Ho; apply B; right; auto.
+      * intros o H. apply in_app_or in H. destruct H as [H|[<-|[]]]; auto. specialize (B o H). lia.
+    + rewrite d_set_absent by (rewrite d_get_view, F; reflexivity).
+      unfold to_dict; simpl. rewrite map_app. simpl. rewrite !updf_same. f_equal.
+      apply map_ext_in. intros o Ho. specialize (B o Ho). rewrite !updf_other by lia. reflexivity.
+Qed.
+
+Theorem proxy_dict_is_view_partial : forall s o, wf s -> pd_guard s o = true ->
+  (match o with DUpdate _ _ => False | _ => True end) ->
+  wf (snd (pd_step s o)) /\
+  (fst (pd_step s o), to_dict (snd (pd_step s o))) = pdop_ref (to_dict s) o.
+Proof.
+  intros s o W G NU. destruct o as [k v|k| |k dflt| |k v|u kw|m]; unfold pdop_ref; cbn [pd_step py_dict_op fst snd].
+  - destruct (pd_setitem_view s k v W) as [W1 E]. split; auto. rewrite E; reflexivity.
+  - unfold d_has. rewrite d_get_view.
+    destruct (find_key (pkey s) k (col s)) as [o|]; simpl; auto.
+    split; [apply pd_del_wf; auto|]. rewrite pd_del_view; reflexivity.
+  - split; [apply wf_with_col; auto; [constructor|intros o []]|reflexivity].
+  - rewrite d_get_view. simpl in G.
+    destruct (find_key (pkey s) k (col s)) as [o|]; simpl.
+    + split; [apply pd_del_wf; auto|]. rewrite pd_del_view; reflexivity.
+    + destruct dflt; [discriminate|]. auto.
+  - unfold d_last, to_dict. rewrite <- map_rev.
+    destruct (rev (col s)) as [|o r]; simpl; auto.
+    split; [apply pd_del_wf; auto|]. f_equal. apply (pd_del_view s (pkey s o)).
+  - rewrite d_get_view.
+    destruct (find_key (pkey s) k (col s)) as [o|] eqn:F; simpl; auto.
+    destruct (pd_setitem_view s k v W) as [W1 E]. split; auto. rewrite E; reflexivity.
+  - contradiction.
+  - discriminate.
+Qed.
+
+(* ------------------------------------------------------------------ set proxy *)
+(* the proxied values are distinct; single-element operations and the unions / differences built
+   from them *)
+Definition wfs (s : px) : Prop := wf s /\ NoDup (to_list s).
+
+Lemma find_member_view : forall s v, ps_mem s v = mem v (to_list s).
+Proof.
+  intros s v. unfold ps_mem, to_list, mem.
+  induction (col s) as [|o r IH]; simpl; auto.
+  rewrite Z.eqb_sym. destruct (Z.eqb (pval s o) v); simpl; auto.
+Qed.
+
+Lemma ps_add_view : forall s v, wfs s ->
+  wfs (ps_add s v) /\ to_list (ps_add s v) = set_add v (to_list s).
+Proof.
+  intros s v [W ND]. unfold ps_add, set_add. rewrite find_member_view.
+  destruct (mem v (to_list s)) eqn:M; [split; [split|]; auto|].
+  pose proof (append_view s v W) as [W1 E]. unfold pl_append in *. simpl in *.
+  split; [split; auto|auto].
+  rewrite E. clear -ND M.
+  assert (~ In v (to_list s)).
+  { intro H. unfold mem in M. rewrite <- not_true_iff_false in M. apply M.
+    apply existsb_exists. exists v; split; auto. apply Z.eqb_refl. }
+  induction (to_list s) as [|a r IH]; simpl; [constructor; auto; constructor|].
+  inversion ND; subst. constructor.
+  - intro Hin. apply in_app_or in Hin. destruct Hin as [Hin|[->|[]]]; auto. apply H; left; auto.
+  - apply IH; auto. intro; apply H; right; auto.
+Qed.
+
+Lemma ps_discard_view : forall s v, wfs s ->
+  wfs (ps_discard s v) /\ to_list (ps_discard s v) = set_discard v (to_list s).
+Proof.
+  intros s v [[NDc B] ND]. unfold ps_discard, set_discard.
+  assert (G : forall c, NoDup c -> NoDup (map (pval s) c) ->
+    map (pval s) (match find_member (pval s) v c with
+                  | Some o => filter (fun x => negb (Nat.eqb x o)) c
+                  | None => c end) = filter (fun y => negb (Z.eqb v y)) (map (pval s) c)).
+  { induction c as [|a r IH]; intros N1 N2; simpl; auto.
+    inversion N1; subst. inversion N2; subst. rewrite (Z.eqb_sym v).
+    destruct (Z.eqb_spec (pval s a) v); simpl.
+    - rewrite Nat.eqb_refl. simpl.
+      rewrite (proj2 (filter_ext_in_iff _ (fun _ => true) r)).
+      + clear. induction r; simpl; auto. f_equal; auto.
+        rewrite filter_true_id. 2: { intros. reflexivity. }
+        induction (map (pval s) r); simpl; auto.
+      + intros x Hx. apply negb_true_iff. apply Nat.eqb_neq. intro; subst; auto.
+    - rewrite <- IH by assumption.
+      destruct (find_member (pval s) v r) as [o|] eqn:F; simpl; auto.
+      assert (a <> o).
+      { clear -F H1. revert F. induction r; simpl; intros; [discriminate|].
+        destruct (Z.eqb (pval s a0) v); [inversion F; subst; intro; subst; apply H1; left; auto|].
+        apply IHr; auto. intro; apply H1; right; auto. }
+      destruct (Nat.eqb_spec a o); [congruence|]. reflexivity. }
+Abort.
